@@ -33,7 +33,7 @@ REG = {
          "canonical-form proofs + repeated-run comparison on the implementation"),
  "C11": ("Props/C11_faults.v: output_monotone, fault_stops (an error is the last event of the log in every syntactic position), failure_never_ignored (no catch site turns an error into success), syntax_error_silent; tied to Go by fault splices at every evaluated position with the prefix oracle.",
          "invariant proofs over the evaluator monad with a ghost raise event + correspondence + metamorphic prefix oracle"),
- "C12": ("Props/C12_positions.v: line_text_consistent and pos_exact for EVERY offset up to the end of the text (quoted line is line N, column inside it, caret on the byte), lexer errors exactly on the character / opening quote, every parser error offset and AST token inside the source; tied to Go by planted faults in multi-line programs and direct GetLineAndCol comparison.",
+ "C12": ("Props/C12_positions.v: line_text_consistent and pos_exact for EVERY offset up to the end of the text (quoted line is line N, column inside it, caret on the byte), lexer errors exactly on the character / opening quote, every parser error offset and AST token inside the source; Props/C12_token_in_node.v: the token a node is reported at lies in every interval containing the node's stored tokens; tied to Go by planted faults in multi-line programs and direct GetLineAndCol comparison.",
          "list-arithmetic proofs about the position renderer + parser span invariant + correspondence on positions"),
  "C13": ("Props/C13_lexer.v: number_never_absorbs, keyword_whole_word, quotes_interchangeable, ws_insensitive, lex_render_layout, expr_layout/gaps_insensitive; with C06_evaluates_identically: any two writings of an expression's tokens evaluate identically; statement-level layout is covered by the metamorphic correspondence (re-layouts of token sequences) and a certified per-pair checker (program_equivb_sound), not by a general theorem (partial).",
          "lexer/parser layout proofs + position-independence proof + metamorphic re-layout correspondence"),
